@@ -210,30 +210,18 @@ example : setDefaults CV.Gen.defaultValues ["services", "web", "ports"] (.seq [.
 
 /-! ## 4. `Normalize`: outcome, and each default as specified -/
 
-/-- `Normalize` reports an error exactly when one of its type assertions fails (the three shape predicates; these
-were panics before the C01 repairs of round 2), and otherwise returns the pure normal form -/
+/-- `Normalize` panics exactly when one of its unchecked type assertions fails (the three shape predicates),
+and otherwise returns the pure normal form -/
 theorem normalize_outcome (clean : String → String) (env : Env) (d : KVs) :
     (shapeNN d = true ∧ shapeServices d = true ∧ shapeNames d = true →
       normalize clean env d = .ok (normalizePure clean env d)) ∧
-    (shapeNN d = false → normalize clean env d = .err "normalizeNetworks") ∧
-    (shapeNN d = true → shapeServices d = false → normalize clean env d = .err "Normalize") ∧
+    (shapeNN d = false → normalize clean env d = .panic "loader.normalizeNetworks") ∧
+    (shapeNN d = true → shapeServices d = false → normalize clean env d = .panic "loader.Normalize") ∧
     (shapeNN d = true → shapeServices d = true → shapeNames d = false →
-      normalize clean env d = .err "setNameFromKey") := by
+      normalize clean env d = .panic "loader.setNameFromKey") := by
   unfold normalize
   refine ⟨fun ⟨h1, h2, h3⟩ => by simp [h1, h2, h3], fun h1 => by simp [h1], fun h1 h2 => by simp [h1, h2],
     fun h1 h2 h3 => by simp [h1, h2, h3]⟩
-
-/-- since the C01 repairs of `Normalize`, `normalizeNetworks` and `setNameFromKey` no document makes `Normalize`
-panic (formerly `Neg.normalize_not_total`: `services: {a: {image: i, pid: }}`) -/
-theorem normalize_never_panics (clean : String → String) (env : Env) (d : KVs) (site : String) :
-    normalize clean env d ≠ .panic site := by
-  unfold normalize
-  repeat' split
-  all_goals (intro h; cases h)
-
-example : ∃ r, normalize pathClean []
-    [("name", .str "proj"), ("services", .map [("a", .map [("image", .str "i"), ("pid", .null)])])] = .ok r :=
-  ⟨_, rfl⟩
 
 /-- a service without `network_mode` and without (or with empty) `networks` joins `default` -/
 theorem service_joins_default (s : KVs) (hm : lookup "network_mode" s = none)
